@@ -1030,6 +1030,28 @@ def probes_c08(tier, seed, ci, nc):
 STREAMS['probes_c08'] = probes_c08
 
 
+def modsig(tier, seed, ci, nc):
+    """the signature a modifiers wrapper object advertises, provenance included (model: prepareSig = the advertised
+    parameters + the function's maps with the wrapper object swapped in), over U x every positional-only / keyword-only selection"""
+    univ = U('ab', 2) if tier == 'quick' else U('abc', 3)
+
+    def gen():
+        for ps in univ:
+            ps = _dist_defaults(ps)
+            for Pn, Wn in _pw_space(ps):
+                if Pn or Wn:
+                    yield ('preparesig', Pn, Wn, ps)
+                posn = [p[0] for p in ps if p[1] in ('po', 'pk')]
+                if Pn and Wn and list(Pn) == posn[:len(Pn)]:
+                    # the same selection made by two stacked decorators (theorem prepare_set_ext: one wrapper object with both
+                    # selections): the OUTER wrapper object stands for the function in both maps
+                    yield ('preparesig', Pn, Wn, ps, 'stacked')
+    return _slice(gen(), ci, nc)
+
+
+STREAMS['modsig'] = modsig
+
+
 def retrieve(tier, seed, ci, nc, n_other=3000, n_plain=2000, n_sphinx=1500):
     """C07 over the corpus: all star-taking functions + a seeded sample of the other callables"""
     from . import corpus
